@@ -7,6 +7,9 @@ open MuduoVerif.Client MuduoVerif.Gen.Client Driver
 structure St where
   c : C
   env : List (List String) := []
+  /-- virtual time at which the timer descriptor was last armed (`TimerQueue` floors the
+  relative expiry at 100 µs, so the alarm is `max deadline (armedAt + 100)`) -/
+  armedAt : Nat := 0
 
 def parseWho : String → Who
   | "F" => .foreign
@@ -49,22 +52,26 @@ def feedEnv (c : C) (env : List (List String)) : C × List Src :=
 def openFds (c : C) : Nat :=
   (c.sockSt.filter (· = .opened)).length + (c.conns.filter (fun r => !r.destroyed)).length
 
-def alarm (c : C) : String :=
-  let future := c.timers.map (·.1)
-  match future with
-  | [] => "-"
-  | d :: rest =>
-    let m := rest.foldl min d
-    if m ≤ c.now then "-" else toString m
+def earliest (c : C) : Option Nat :=
+  match c.timers.map (·.1) with
+  | [] => none
+  | d :: rest => some (rest.foldl min d)
 
-def stLine (c : C) : String :=
+def alarm (c : C) (armedAt : Nat) : String :=
+  match earliest c with
+  | none => "-"
+  | some m =>
+    let a := max m (armedAt + 100)
+    if a ≤ c.now then "-" else toString a
+
+def stLine (c : C) (armedAt : Nat) : String :=
   let conn :=
     if !c.clientAlive then "gone"
     else match c.connection with
       | none => "none"
       | some k => match connSt c k with
         | .connected => "C" | .disconnecting => "X" | .disconnected => "D"
-  s!"st conn={conn} alarm={alarm c} fds={openFds c}"
+  s!"st conn={conn} alarm={alarm c armedAt} fds={openFds c}"
 
 def exec (s : St) (ws : List String) : St × List String :=
   let (c0, active) := feedEnv s.c s.env
@@ -92,7 +99,17 @@ def exec (s : St) (ws : List String) : St × List String :=
     (if c1.envConnect ≠ [] ∨ c1.envSoErr ≠ [] ∨ c1.envSelf ≠ [] ∨ c1.envRead ≠ []
       then ["env-unconsumed: the implementation made a call the model did not make"] else [])
   let c1 : C := { c1 with envConnect := [], envSoErr := [], envSelf := [], envRead := [] }
-  ({ c := c1, env := [] }, outs ++ diag ++ (if c1.dead then [] else [stLine c1]))
+  -- `< arm <ns>`: the timer descriptor was (re)armed during this step, relative to the step's clock
+  let arms := s.env.filterMap (fun ws => match ws with | ["<", "arm", ns] => ns.toNat? | _ => none)
+  let armedAt := if arms.isEmpty then s.armedAt else c1.now
+  let armDiag : List String := match arms.getLast?, earliest c1 with
+    | some ns, some m =>
+      if ns / 1000 = max (m - c1.now) 100 then []
+      else [s!"arm-mismatch: implementation armed {ns} ns, model expects {max (m - c1.now) 100} us"]
+    | some ns, none => [s!"arm-mismatch: implementation armed {ns} ns, the model has no timer"]
+    | none, _ => []
+  ({ c := c1, env := [], armedAt := armedAt },
+   outs ++ diag ++ armDiag ++ (if c1.dead then [] else [stLine c1 armedAt]))
 
 def main (lines : Array String) (args : List String) : IO Unit := do
   let asserts := !(args.contains "ndebug")
